@@ -369,6 +369,38 @@ fn edit_case<G: CurveTag>(bytes: &[u8], col: &mut Collector) -> Result<(), Failu
         return Ok(());
     }
     let m0 = ProofMirror::from_proof(proof);
+    // compensating pair edits built from the honest run's own coefficients
+    {
+        use crate::compensate::{compensating_edit, fork_challenge};
+        use crate::props::c03::extract_challenges;
+        let vr = run_verifier::<G>(&prog, &p.commitments, proof, &VerifyOpts { record: true, ..Default::default() });
+        if let Some(chs) = extract_challenges::<G>(&vr.log, vr.main_id, vr.challenges.len()) {
+            let r = fork_challenge::<Fr<G>>(&vr.log, vr.main_id);
+            for _ in 0..2 {
+                let (sel, sel2) = (chi.byte() as usize, chi.u16() as usize);
+                let d: Fr<G> = ScalarSpec::gen_nonzero(&mut chi).to_f();
+                let dp = rand_point::<G>(chi.u16() as u64);
+                let Some((desc, m2)) = compensating_edit::<G>(&m0, &chs, r, &pc_gens::<G>().B_blinding, sel, sel2, d, dp) else { continue };
+                let mutated = m2.to_bytes();
+                col.evals_add(1);
+                let res = judge::<G>(&prog, &p.commitments, o, &mutated);
+                record(col, &res);
+                if res == Outcome4::AcceptedDifferent {
+                    return Err(Failure::new(
+                        "C04:accepted:compensating-edit",
+                        format!("a pair of proof fields can be changed together without the verifier noticing: {}", desc),
+                        json!({"program": prog.to_json(), "edit": desc, "original_hex": hex::encode(o), "mutated_hex": hex::encode(&mutated)}),
+                    ));
+                }
+                col.class("edit:compensating-pair");
+                if res == Outcome4::VerifyError {
+                    col.nontrivial(fp_of(&(prog.fingerprint(), desc)));
+                }
+            }
+        } else {
+            col.note("honest verifier run lacks the challenges: compensating edits not evaluated");
+        }
+    }
     let nedits = 3;
     for _ in 0..nedits {
         let (desc, mutated) = edit::<G>(&mut chi, &m0, o);
